@@ -87,7 +87,9 @@ CLAIMS = {
                 "strscan stream on arbitrary literal bodies with random escape sequences (incl. lone backslashes, unterminated "
                 "literals). Templates: oracle on the implementation — value = concatenation of segments and hole values, statement "
                 "holes keep only their last value, assignments inside holes are visible afterwards, nesting 1..20.",
-        "note": TB + "Template concatenation/hole isolation are validated on the implementation, not yet proved on a VM model.",
+        "note": TB + "template_join / template_cap (VM model): ld.fs n yields exactly the concatenation, bottom to top, of the string forms of "
+                     "its n operands, or an error beyond the cap; that a hole leaves exactly one operand (its value, or '' when its code "
+                     "leaves none) is the skeleton theorem of C08 (fstr.block.pop) plus the template oracle on the implementation.",
         "technique": "Lean 4 induction over texts (escape/scan round trip) + differential stream + template oracle",
     },
     "C09": {
